@@ -209,6 +209,27 @@ def gen_lifecycle():
                         writes |= {"%s.%s" % (m.name, a) for a in attr_targets(m, is_self)}
     out += "/-- attributes written by the trie lookups the tokenizer calls (must be none: the trie is shared process-wide) -/\n"
     out += "def trieLookupWrites : List Str := %s\n" % strlist(sorted(writes))
+    # ---- HTMLSerializer: attributes written by its methods outside __init__ must be (re)assigned at the start of
+    # serialize(), before the first token is looked at — otherwise an aborted call (strict SerializeError, encoding error,
+    # abandoned generator) leaks into the next one
+    stree = ast.parse(src("html5lib/serializer.py"))
+    ser_mut, ser_est = set(), set()
+    for cls in ast.walk(stree):
+        if isinstance(cls, ast.ClassDef) and cls.name == "HTMLSerializer":
+            for m in cls.body:
+                if isinstance(m, ast.FunctionDef) and m.name != "__init__":
+                    ser_mut |= attr_targets(m, is_self)
+                if isinstance(m, ast.FunctionDef) and m.name == "serialize":
+                    head = []
+                    for st in m.body:
+                        if isinstance(st, (ast.For, ast.While)):
+                            break
+                        head.append(st)
+                    ser_est = definitely_assigned(head, is_self)
+    out += "/-- attributes of HTMLSerializer written outside __init__ -/\n"
+    out += "def serializerMutable : List Str := %s\n" % strlist(sorted(ser_mut))
+    out += "/-- attributes definitely assigned by serialize() before its token loop -/\n"
+    out += "def serializerEstablished : List Str := %s\n" % strlist(sorted(ser_est))
     # ---- objects shared by every parser in the process: instances created at module level or in a class body
     # (dispatch tables `startTagHandler = _utils.MethodDispatcher([...])`, the entity trie, …).  Their classes must not
     # write to `self` outside construction, or independent parsers running in different threads meet through them.
